@@ -58,13 +58,15 @@ ASSUMPTIONS = [
     "text log: a column must equal format(value, fmt) of the Python scalar (numpy scalars / array entries through .item()) "
     "up to surrounding blanks, and float()/complex() of the column must format back to the same string; array entries are "
     "attributed to columns through the index in the header label (tag[i, j]) when present, else C order; formats with "
-    "a width are not combined with blank separators; '%' and 'd' formats, lists, empty arrays, bools are outside the domain",
+    "a width are not combined with blank separators; '%' and 'd' formats, lists, empty arrays, bools are outside the domain, "
+    "and so are value/format pairs whose text no number parser accepts by construction (zero-padded nan/inf such as "
+    "'00000nan'; DBL_MAX, which a short format rounds up beyond the float range)",
     "signal tags are plain identifiers (XML meta-characters or separators inside tags are outside the quantifier)",
     "the memory layout of a logged array is constant over the iterations of one module instance",
 ]
-FLOORS = {"quick": {"cases_held": 700, "vti_files_decoded": 1500, "vti_arrays_compared": 8000, "vti_sizemult_blocks": 150,
-                    "vti_padded_arrays": 1000, "log_rows_checked": 800, "log_values_compared": 3000,
-                    "log_length1_values": 60},
+FLOORS = {"quick": {"cases_held": 1600, "vti_files_decoded": 3000, "vti_arrays_compared": 35000, "vti_sizemult_blocks": 750,
+                    "vti_padded_arrays": 2400, "log_rows_checked": 1700, "log_values_compared": 6000,
+                    "log_length1_values": 400},
           "thorough": {"cases_held": 9000, "vti_files_decoded": 25000, "vti_arrays_compared": 150000,
                        "vti_sizemult_blocks": 3000, "vti_padded_arrays": 10000, "log_rows_checked": 20000,
                        "log_values_compared": 80000, "log_length1_values": 1500}}
@@ -74,8 +76,8 @@ TIMEOUT_CASE = 120
 # "vector and block-vector inputs".  Set to False to leave that class out of the workload.
 INCLUDE_SINGLE_COLUMN_PAD = True
 
-VEC_VARIANTS = ["f64", "f32", "int", "strided", "rev", "wide", "special"]
-BLK_VARIANTS = ["f64", "f32", "int", "forder", "strided", "wide", "special"]
+VEC_VARIANTS = ["f64", "f32", "int", "strided", "rev", "wide", "special", "f32strided", "f32rev"]
+BLK_VARIANTS = ["f64", "f32", "int", "forder", "strided", "wide", "special", "f32strided", "f32forder"]
 SCALES = ["default", "one", "float", "int", "npfloat"]
 PATHS = ["plain", "nested", "noext", "upper", "dots", "digits"]
 UPDATES = ["new", "inplace", "same"]
@@ -171,7 +173,7 @@ def _fmt_ok(fmt, sep, kinds):
 def _plan_log(tier, seed):
     cases = []
     maxit = 5 if tier == "quick" else 12
-    rep_a, rep_b = (1, 3) if tier == "quick" else (8, 40)
+    rep_a, rep_b = (3, 10) if tier == "quick" else (12, 60)
     idx = 0
     for rep in range(rep_a):
         for ki, kind in enumerate(LOG_KINDS):                     # every value kind alone with every format
@@ -252,8 +254,14 @@ def _values(rng, shape, variant):
 
 def _make_array(rng, shape, variant):
     """An ndarray of the requested shape whose dtype / memory layout follows the variant."""
-    if variant == "f32":
-        return _values(rng, shape, variant).astype(np.float32)
+    if variant.startswith("f32"):
+        # float32 data in every layout: a writer that skips the conversion for float32 input must still cope with views
+        with np.errstate(all="ignore"):
+            if variant == "f32strided":
+                big = _values(rng, tuple(2 * s for s in shape), "f64").astype(np.float32)
+                return big[tuple(slice(None, None, 2) for _ in shape)]
+            x = _values(rng, shape, "f64").astype(np.float32)
+        return x[::-1] if variant == "f32rev" else (np.asfortranarray(x) if variant == "f32forder" else x)
     if variant == "int":
         return _values(rng, shape, variant).astype(np.int64)
     if variant == "forder":
@@ -352,8 +360,12 @@ def _check_vti_file(raw, n, size, scale_val, tags_expect, ctx):
     return len(v["arrays"])
 
 
-def _name_ints(path, stem):
-    return [int(t) for t in re.findall(r"\d+", os.path.basename(path))]
+def _name_ints(path, saveto):
+    """Integer fields of the file name that do not belong to the requested stem."""
+    base, stem = os.path.basename(path), os.path.basename(os.path.splitext(saveto)[0])
+    if base.lower().startswith(stem.lower()):
+        base = base[len(stem):]
+    return [int(t) for t in re.findall(r"\d+", base)]
 
 
 def _run_vti(case, ctx):
@@ -375,10 +387,6 @@ def _run_vti(case, ctx):
     specs, sigs = [], []
     for i, (kind, k, form, m, variant, sizemult) in enumerate(case["arr"]):
         N = k * (nel if kind == "c" else nn)
-        if form == "vec" and variant == "forder":
-            variant = "f64"
-        if form != "vec" and variant == "rev":
-            variant = "forder"
         arr = _make_array(rng, _shape(form, N, m), variant)
         tag = "%s%d%s%d" % ("rho" if kind == "c" else "u", k, {"vec": "v", "cols": "bc", "rows": "br", "col1": "sc", "row1": "sr"}[form], i)
         specs.append({"tag": tag, "kind": kind, "k": k, "form": form, "m": m, "variant": variant, "sizemult": sizemult})
@@ -474,11 +482,21 @@ def _attribute_vti_exception(pym, exc, dom, sigs, specs, dim, root, ctx):
     for j, (s, sp) in enumerate(zip(sigs, specs)):
         sub = os.path.join(root, "_attr%d" % j)
         try:
-            pym.WriteToVTI([pym.Signal(sp["tag"], np.array(s.state, copy=True))], domain=dom,
-                           saveto=os.path.join(sub, "a.vti")).response()
+            pym.WriteToVTI([pym.Signal(sp["tag"], s.state)], domain=dom, saveto=os.path.join(sub, "a.vti")).response()
         except Exception as e2:  # noqa: BLE001
             if _repo_raise(e2):
-                culprits.append((type(e2).__name__, _label(sp["kind"], sp["k"], sp["form"], sp["sizemult"], dim), sp, e2))
+                lab = _label(sp["kind"], sp["k"], sp["form"], sp["sizemult"], dim)
+                try:    # does it depend on dtype / memory layout?  (same values as contiguous float64)
+                    with np.errstate(all="ignore"):
+                        plain = np.ascontiguousarray(np.array(s.state, dtype=float))
+                    pym.WriteToVTI([pym.Signal(sp["tag"], plain)], domain=dom, saveto=os.path.join(sub, "b.vti")).response()
+                    lab += "/only-as-" + {"f32": "float32", "f32strided": "float32-strided-view", "f32rev": "float32-reversed-view",
+                                          "f32forder": "float32-fortran-order", "forder": "fortran-order", "strided": "strided-view",
+                                          "rev": "reversed-view", "int": "integer", "wide": "wide-range-values",
+                                          "special": "special-values", "f64": "float64"}[sp["variant"]]
+                except Exception:  # noqa: BLE001
+                    pass
+                culprits.append((type(e2).__name__, lab, sp, e2))
         shutil.rmtree(sub, ignore_errors=True)
     if not culprits:
         raise Violation("vti/raises-%s/only-in-combination" % type(exc).__name__, error=short_exc(exc), site=exc_site(exc),
@@ -591,8 +609,9 @@ def _run_log(case, ctx):
     fmt = ".10e" if case["fmt"] == "default" else case["fmt"]
     sep_eff = "," if case["ext"] == ".csv" else ("\t" if case["sep"] == "default" else case["sep"])
     vclass = ["normal", "normal", "huge", "special", "round"][int(rng.integers(5))]
-    if vclass == "special" and fmt.startswith("0"):
-        vclass = "round"        # Python zero-pads nan/inf ('00000nan'), which no number parser accepts: inherent to the format
+    if vclass in ("special", "huge") and fmt.startswith("0"):
+        vclass = "round"        # Python zero-pads nan/inf ('00000nan', '-0000inf'; float32 overflow of the huge class gives inf),
+        #                         which no number parser accepts: inherent to the chosen format, not to the module
     kinds = case["kinds"]
     tags = LOG_TAGS[:len(kinds)]
     vals = [_log_value(rng, k, vclass) for k in kinds]
@@ -637,9 +656,10 @@ def _run_log(case, ctx):
             except Exception as e:  # noqa: BLE001
                 if not _repo_raise(e):
                     raise
-                _attribute_log_exception(pym, e, kinds, now, kw, root, ctx)
+                _attribute_log_exception(pym, e, kinds, [s.state for s in sigs], kw, root, ctx)
             after = _scan(root)
             changed, removed = _changed(before, after)
+            require(changed or removed, "log/nothing-written-by-this-call", call=it)
             require(not removed and changed == [saveto] and len(after) == 1, "log/files-other-than-the-log-touched",
                     changed=[os.path.relpath(p, root) for p in changed], removed=len(removed), present=len(after))
             try:
@@ -754,7 +774,7 @@ def _attribute_log_exception(pym, exc, kinds, vals, kw, root, ctx):
         sub = os.path.join(root, "_attr%d" % j)
         kw2 = dict(kw, saveto=os.path.join(sub, os.path.basename(kw["saveto"])))
         try:
-            pym.ScalarToFile([pym.Signal("x", _snapshot(v))], **kw2).response()
+            pym.ScalarToFile([pym.Signal("x", v)], **kw2).response()
         except Exception as e2:  # noqa: BLE001
             if _repo_raise(e2):
                 culprits.append(("log/raises-%s/%s" % (type(e2).__name__, _kind_class(k)),
